@@ -6,6 +6,9 @@
 // CheckArmoredDetachedSignature, armor.Decode (+ReadMessage on its body), clearsign.Decode);
 // the call must return (value or error) without panicking and every returned body must
 // reach EOF or an error within a STEP budget (Read calls are counted; no wall clock).
+// The input is delivered through three reader behaviours (whole reads, one octet per Read,
+// final octets together with io.EOF), bodies are drained with buffer sizes on either side of
+// the 22-octet MDC window, and a drained body is read twice more after its end.
 //
 //	entry.go   the entry points, step-counting readers, panic classification
 //	seeds.go   seed objects: GnuPG-made keys/messages, the repo's test vectors (copied as
@@ -32,7 +35,10 @@ func run(c *vf.Ctx) {
 	c.Rule("inputs: ALL byte strings of length <=2 (thorough <=3); for each seed object (keys of every kind, messages of every packet kind, armored blocks, cleartext messages, crafted session-key packets) " +
 		"EVERY truncation, at EVERY offset the substitutions {0x00,0x7F,0x80,0xC0,0xFF,b^1,b^0x80} (armored / cleartext seeds also LF '=' '-' ':' ' '), and for every top-level packet header the length rewrites {0,1,L-1,L,L+1,191,192,8383,8384,65535,2^31-1,2^31,2^32-16..2^32-1} in 1-, 2- and 5-octet form, " +
 		"partial-length headers {2^0,2^1,2^9,2^30} (also followed by a 5-octet length) and old-format length types 0..3; nested: signature subpacket areas cut at every position, MPI bit counts, every subpacket's own length field (signature and user-attribute packets) with the same boundary set; each input goes to 11 entry-point variants; non-trivial = distinct (seed, mutation) pairs, resp. distinct short strings that are accepted or reach a packet parser; " +
-		"oracle: no panic, result or error, bodies reach EOF/error within 10^6 Read calls")
+		"oracle: no panic, result or error, bodies reach EOF/error within 10^6 Read calls; " +
+		"hardening dimensions: (D/env) the input reaches the parsers through 3 reader behaviours (whole reads / one octet per Read / final octets together with io.EOF) and bodies are drained with 6 buffer sizes {4096,512,64,1,22,23} (22 = MDC trailer window, both sides of seMDCReader's short-read branch): " +
+		"every unmodified seed x all 18 combinations, every truncation x all 3 reader behaviours (buffer size round-robin by offset), substitutions / rewrites / short strings one combination each, assigned round-robin; a drained body is read twice more after EOF/error; " +
+		"(C/E) 5 crafted armored seeds with body lines of 96/97/100/101 characters and header lines whose \": \" and value straddle the 100-octet fragment boundary of armor.Decode's reader")
 	c.Assume("the prompt function gives up (returns an error) after 3 calls: ReadMessage is documented to call it forever otherwise; keyrings passed to ReadMessage/CheckDetachedSignature are trusted (fixture) keys; a CPU loop that performs no Read call would hang the run instead of being reported")
 	go watchdog(c)
 	e := newEnv(c)
